@@ -5,7 +5,9 @@
 
       raw text, {print e} (no directives), {css}, {debugger}, {log}, {if}/{elseif}/{else},
       {switch}/{case}/{default}, {foreach $x in [e₁, …]}…{ifempty}… (the list given as a literal),
-      {let $x: e /}, {let $x}…{/let}, header params — nested arbitrarily,
+      {for $i in range(a[, b[, s]])} / {foreach … in range(…)},
+      {let $x: e /}, {let $x}…{/let}, {call} without a data attribute and with value params, header params
+      — nested arbitrarily, templates calling templates to any depth (`render_refines_lexical_partial`),
       with expressions of the scalar operator fragment of Props/C01.lean,
 
   over scalar data: whenever the lexical specification yields text, the model's walk (dynamic scope
@@ -14,11 +16,18 @@
   `let` is visible to the end of its block and not after it, and shadows an outer name only there;
   whenever the specification yields an error the model yields an error.
 
-  Missing for the full `exec_refines_lexical`: {foreach} over a list VALUE and {for … in range(…)} (list
-  values and functions are outside the scalar expression fragment), {call} (a simulation across the callee's scope), {msg}.  Those are covered by the
-  scoping theorems of Props/C02.lean and by the Spec.render oracle of the C02exec correspondence.
+  {foreach} over a list VALUE is `foreach_over_value_refines`: for any list expression whose evaluation
+  agrees with the specification's (e.g. a variable bound to a list of scalars, `list_variable_agrees`);
+  it is a theorem beside the fragment because list values are outside the scalar expression fragment.
+
+  Still outside (exactly): expressions beyond Props/C01's scalar operator fragment (accesses, collection
+  literals other than a loop's list literal, functions other than a loop's range — hence also `index` /
+  `isFirst` / `isLast`), print directives, {call} with data="all" or data="$e" (the caller's entry data would
+  have to be related to the frames `alldata` passes; maps are not scalars), content params
+  ({param k}…{/param}), {msg}.  Those are covered by the scoping theorems of Props/C02.lean and by the Spec.render oracle of the C02exec correspondence.
 -/
 import SoyVerif.Lemmas.ExecRefine
+import SoyVerif.Lemmas.RangeRefine
 
 namespace SoyVerif.Props.C02Spec
 open SoyVerif SoyVerif.Model SoyVerif.Model.Eval SoyVerif.Refine
@@ -29,6 +38,12 @@ open SoyVerif.Props.C02 (ScopeOk)
 def optFrag : Option Expr → Bool
   | none => true
   | some e => frag e
+
+/-- the params of a call: values of the expression fragment (no content blocks) -/
+def paramsFrag : ParamList → Bool
+  | .nil => true
+  | .value _ _ e r => frag e && paramsFrag r
+  | .content _ _ _ _ => false
 
 /-- the items of a list literal -/
 def fragList : ExprList → Bool
@@ -45,7 +60,10 @@ def cfrag : Cmd → Bool
   | .ifc _ conds => condsFrag conds
   | .switch _ v cases => frag v && casesFrag cases
   | .forc _ _ (.list _ items) body none => fragList items && bfrag body
+  | .forc _ _ (.func _ name args) body none => name == fRange && fragList args && bfrag body
+  | .forc _ _ (.func _ name args) body (some b) => name == fRange && fragList args && bfrag body && bfrag b
   | .forc _ _ (.list _ items) body (some b) => fragList items && bfrag body && bfrag b
+  | .call _ _ false none ps => paramsFrag ps
   | .letValue _ _ e => frag e
   | .letContent _ _ b => bfrag b
   | .headerParam _ _ _ _ _ _ => true
@@ -100,6 +118,16 @@ theorem AgreeB.of_atNode {g : GEnv} {ctx : Scope} {st : St} {env : Spec.Eval.Env
   | unspec => trivial
   | error => exact h
   | val q => exact h
+
+/-- a callee's run against the specification's: text or error (the callee's bindings are its own) -/
+def AgreeT (st : St) (r : R) : Out Bytes → Prop
+  | .val out => r.cls = .ok ∧ bufBytes r.st.out = bufBytes st.out ++ out
+  | .error => r.cls = .err
+  | .unspec => True
+
+/-- the frames of `cd` bind exactly `B` (scalars) -/
+def FrameRel (heap : List Cell) (cd : Scope) (B : Spec.Eval.Binds) : Prop :=
+  ∀ k, absV (lookup heap cd k) = (Spec.Eval.find B k).getD .undefined ∧ Scalar (lookup heap cd k) = true
 
 theorem absV_undefined (mv : Value) (h : absV mv = .undefined) : mv = .undefined := by
   cases mv <;> simp [absV] at h ⊢
@@ -175,9 +203,82 @@ theorem evalIn_list_sim {g : GEnv} {ctx : Scope} {st : St} {env : Spec.Eval.Env}
     · simp [evalIn, evalE, h.2 h']
     · simp at h'
 
+theorem absL_length : ∀ (l : List Value), (absL l).length = l.length
+  | [] => rfl
+  | _ :: r => by simp [absL, absL_length r]
+
+theorem evalArgs_length {m : EEnv} : ∀ (args : ExprList) (n : Nat) (mvs : List Value) (n' : Nat),
+    evalArgs m args n = some (mvs, n') → mvs.length = args.length
+  | .nil, n, mvs, n', h => by rw [evalArgs] at h; simp at h; rw [h.1]; rfl
+  | .cons e r, n, mvs, n', h => by
+    rw [evalArgs] at h
+    split at h
+    · split at h
+      · rename_i vs n2 hr
+        simp only [Option.some.injEq, Prod.mk.injEq] at h
+        rw [← h.1, List.length_cons, evalArgs_length r _ vs n2 hr, ExprList.length]
+      · simp at h
+    · simp at h
+
+theorem applyFn_range_arity (vs : List Val) (h : ¬ ([1, 2, 3].contains vs.length = true)) :
+    Spec.Eval.applyFn Spec.Eval.nRange vs = .error := by
+  rcases vs with _ | ⟨a, _ | ⟨b, _ | ⟨c, _ | ⟨d, r⟩⟩⟩⟩
+  · simp [Spec.Eval.applyFn, Spec.Eval.nRange, Spec.Eval.nIsNonnull, Spec.Eval.nLength, Spec.Eval.nKeys, Spec.Eval.nAugmentMap, Spec.Eval.nRound,
+      Spec.Eval.nFloor, Spec.Eval.nCeiling, Spec.Eval.nMin, Spec.Eval.nMax, Spec.Eval.nStrContains]
+  · simp at h
+  · simp at h
+  · simp at h
+  · simp [Spec.Eval.applyFn, Spec.Eval.nRange, Spec.Eval.nIsNonnull, Spec.Eval.nLength, Spec.Eval.nKeys, Spec.Eval.nAugmentMap, Spec.Eval.nRound,
+      Spec.Eval.nFloor, Spec.Eval.nCeiling, Spec.Eval.nMin, Spec.Eval.nMax, Spec.Eval.nStrContains]
+
+/-- `{for $i in range(…)}`: the range call through `evalIn` -/
+theorem evalIn_range_sim {g : GEnv} {ctx : Scope} {st : St} {env : Spec.Eval.Env} (hr : Rel g ctx st env) (p : Nat)
+    (args : ExprList) (hf : fragList args = true) :
+    (∀ v, Spec.Eval.eval env (.func p fRange args) = .val v → ∃ id mvs st1, evalIn g (.func p fRange args) ctx st = some (.list id mvs, st1) ∧
+        v = .list (absL mvs) ∧ (∀ x ∈ mvs, Scalar x = true) ∧ st1.heap = st.heap ∧ st1.out = st.out) ∧
+    (Spec.Eval.eval env (.func p fRange args) = .error → evalIn g (.func p fRange args) ctx st = none) := by
+  have h := evalArgs_sim hr args hf st.next
+  have hloopS : Spec.Eval.isLoopFn fRange = false := by decide
+  have hloopM : isLoopFunc fRange = false := by decide
+  have har : funcArities fRange = some [1, 2, 3] := by decide
+  have hname : fRange = Spec.Eval.nRange := rfl
+  have hS : Spec.Eval.eval env (.func p fRange args) = (Spec.Eval.evalList env args).bind fun vs => Spec.Eval.applyFn fRange vs := by
+    unfold Spec.Eval.eval
+    simp only [hloopS, Bool.false_eq_true, if_false]
+  rw [hS]
+  refine ⟨fun v hv => ?_, fun herr => ?_⟩
+  · obtain ⟨vs, hv1, hv⟩ := C01.bind_val hv
+    obtain ⟨mvs, n', h1, h2, h3⟩ := h.1 vs hv1
+    rw [hname, ← h2] at hv
+    obtain ⟨id, xs, n'', ha, hveq, hxs⟩ := (range_apply mvs h3 n').1 v hv
+    have hlen : [1, 2, 3].contains args.length = true := by
+      apply Classical.byContradiction
+      intro hc
+      have : ¬ ([1, 2, 3].contains (absL mvs).length = true) := by
+        rw [absL_length, evalArgs_length args _ mvs n' h1]; exact hc
+      rw [applyFn_range_arity _ this] at hv
+      simp at hv
+    refine ⟨id, xs, { st with next := n'' }, ?_, hveq, hxs, rfl, rfl⟩
+    have hlen' : ¬(¬args.length = 1 ∧ ¬args.length = 2 ∧ ¬args.length = 3) := by
+      intro hc; have : ¬ ([1, 2, 3].contains args.length = true) := by simpa using hc
+      exact this hlen
+    simp [evalIn, evalE, hloopM, har, hlen', h1, ha]
+  · by_cases hlen : [1, 2, 3].contains args.length = true
+    · rcases C01.bind_err herr with h' | ⟨vs, hv1, h'⟩
+      · simp [evalIn, evalE, hloopM, har, h.2 h']
+      · obtain ⟨mvs, n', h1, h2, h3⟩ := h.1 vs hv1
+        rw [hname, ← h2] at h'
+        simp [evalIn, evalE, hloopM, har, h1, (range_apply mvs h3 n').2 h']
+    · have hlen' : ¬args.length = 1 ∧ ¬args.length = 2 ∧ ¬args.length = 3 := by simpa using hlen
+      simp [evalIn, evalE, hloopM, har, hlen']
+
 section
 variable (g : GEnv) (hob : g.oblig = []) (esc : Bool) (call : Registry.Tmpl → Run) (hcall : ∀ t, GoodRun (call t))
   (reg : Registry.Reg) (hasBundle : Bool) (entry : Spec.Eval.Binds) (scall : Registry.Tmpl → Spec.Eval.CallEnv → Out Bytes)
+  (hreg : g.reg = reg)
+  (hcs : ∀ (t : Registry.Tmpl), t ∈ reg → ∀ (cctx : Scope) (s2 : St) (ce : Spec.Eval.CallEnv),
+    Rel g cctx s2 { vars := ce.entry, loops := [], ij := ce.ij, globals := ce.globals } → Own cctx s2 → ScopeOk cctx s2 →
+    AgreeT s2 (call t cctx s2) (scall t ce))
 
 /-- a block whose body agrees command by command agrees as a block -/
 theorem block_agree (body : Run) (sbody : Spec.Eval.Env → Out Bytes) (hgood : GoodRun body)
@@ -423,7 +524,72 @@ theorem loop_agree (body : Run) (sbody : Spec.Eval.Env → Out Bytes) (hgood : G
               simp only [AgreeB] at hi ⊢
               exact ⟨hi.1, by rw [hi.2.1, hbytes, hout4]; simp, hi.2.2⟩
 
-include hob hcall in
+omit hob hcall hreg hcs in
+theorem find_cons (B : Spec.Eval.Binds) (key : Bytes) (v : Val) (k : Bytes) :
+    Spec.Eval.find ((key, v) :: B) k = if k == key then some v else Spec.Eval.find B k := by
+  simp only [Spec.Eval.find]
+  by_cases h : key = k
+  · subst h; simp
+  · have h1 : (key == k) = false := by simpa using h
+    have h2 : (k == key) = false := by simpa using fun e => h e.symm
+    simp [h1, h2]
+
+omit hob hcall hreg hcs in
+/-- the value params of a call: evaluated in the caller's environment, bound in the callee's param frame -/
+theorem params_agree : (ps : ParamList) → paramsFrag ps = true →
+    ∀ (cd ctx : Scope) (st : St) (env : Spec.Eval.Env) (B0 : Spec.Eval.Binds),
+    Rel g ctx st env → Own cd st → FrameRel st.heap cd B0 → (∀ f ∈ ctx, f.ref ≠ top cd) → ScopeOk ctx st →
+    match Spec.Eval.renderParams reg hasBundle esc entry scall ps env with
+    | .val R => (execParams g esc call ps cd ctx st).cls = .ok ∧
+        FrameRel (execParams g esc call ps cd ctx st).st.heap cd (R ++ B0) ∧
+        (execParams g esc call ps cd ctx st).st.out = st.out
+    | .error => (execParams g esc call ps cd ctx st).cls = .err
+    | .unspec => True
+  | .nil, _, cd, ctx, st, env, B0, _, _, hfr, _, _ => by
+    rw [Spec.Eval.renderParams, execParams]
+    exact ⟨rfl, by simpa using hfr, rfl⟩
+  | .content _ _ _ _, hf, _, _, _, _, _, _, _, _, _, _ => by simp [paramsFrag] at hf
+  | .value _ key e rest, hf, cd, ctx, st, env, B0, hr, owncd, hfr, hne, hok => by
+    simp only [paramsFrag, Bool.and_eq_true] at hf
+    obtain ⟨h1, h2⟩ := evalIn_sim hr e hf.1
+    rw [Spec.Eval.renderParams, execParams]
+    cases hv : Spec.Eval.eval env e with
+    | unspec => simp [Spec.Eval.Out.bind]
+    | error => simp [Spec.Eval.Out.bind, h2 hv]
+    | val v =>
+      obtain ⟨mv, st1, he, habs, hsc, hheap, hout⟩ := h1 v hv
+      have e1 : Ext (fun _ => False) st st1 := evalIn_ext _ he
+      have own1 := owncd.ext e1
+      simp only [Spec.Eval.Out.bind, he]
+      cases hs : Eval.set cd st1 key mv with
+      | none => exact absurd hs (set_ne_none own1)
+      | some st2 =>
+        simp only
+        have e2 := set_ext own1 hs
+        have hok1 : ScopeOk ctx st1 := fun f hf' => by rw [hheap]; exact hok f hf'
+        have hr2 : Rel g ctx st2 env :=
+          (hr.of_heap hheap).of_lookup (lookup_ext_W e2 ctx hok1 (fun f hf' h => hne f hf' h))
+        have hfr2 : FrameRel st2.heap cd ((key, v) :: B0) := by
+          intro k
+          rw [lookup_set own1 hs k, find_cons]
+          have := hfr k
+          rw [← hheap] at this
+          split
+          · exact ⟨by rw [habs]; rfl, hsc⟩
+          · exact this
+        have hok2 : ScopeOk ctx st2 := fun f hf' => Nat.lt_of_lt_of_le (hok1 f hf') e2.len
+        have ih := params_agree rest hf.2 cd ctx st2 env ((key, v) :: B0) hr2 (own1.ext e2) hfr2 hne hok2
+        cases hrr : Spec.Eval.renderParams reg hasBundle esc entry scall rest env with
+        | unspec => simp
+        | error => rw [hrr] at ih; simpa using ih
+        | val R =>
+          rw [hrr] at ih
+          simp only at ih ⊢
+          refine ⟨ih.1, ?_, by rw [ih.2.2, Refine.set_out hs, hout]⟩
+          have : (R ++ [(key, v)]) ++ B0 = R ++ (key, v) :: B0 := by simp
+          rw [this]; exact ih.2.1
+
+include hob hcall hreg hcs in
 mutual
 theorem cmd_agree : (c : Cmd) → cfrag c = true → ∀ (ctx : Scope) (st : St) (env : Spec.Eval.Env),
     Rel g ctx st env → Own ctx st → ScopeOk ctx st →
@@ -659,13 +825,97 @@ theorem cmd_agree : (c : Cmd) → cfrag c = true → ∀ (ctx : Scope) (st : St)
           rw [hlv] at hl
           simp only [AgreeB] at hl
           exact ⟨hl.1, by rw [hl.2.1, hout], hl.2.2⟩
+  | .forc _ var (.func p fname args) (.mk bp cs) none, hf, ctx, st, env, hr, hown, hok => by
+    simp only [cfrag, bfrag, Bool.and_eq_true, beq_iff_eq] at hf
+    obtain ⟨⟨hname, hfa⟩, hfb⟩ := hf
+    subst hname
+    obtain ⟨h1, h2⟩ := evalIn_range_sim hr p args hfa
+    have hb : ∀ ctx' st' env', Rel g ctx' st' env' → Own ctx' st' → ScopeOk ctx' st' →
+        ∃ o : Spec.Eval.ROut, Agree g ctx' st' (execBody g esc call (.mk bp cs) ctx' st') o ∧
+          Spec.Eval.renderBlock reg hasBundle esc entry scall (.mk bp cs) env' = o.bind fun q => .val q.1 := by
+      intro ctx' st' env' hr' hown' hok'
+      refine ⟨cmdsE esc reg hasBundle entry scall cs env', ?_, ?_⟩
+      · rw [execBody]; exact Agree.of_atNode (cmds_agree cs hfb ctx' _ env' (hr'.of_heap rfl) (hown'.atNode _) hok')
+      · rw [Spec.Eval.renderBlock]; exact renderCmds_eq esc reg hasBundle entry scall cs env'
+    rw [execCmd, Spec.Eval.renderCmd]
+    cases hv : Spec.Eval.eval env (.func p fRange args) with
+    | unspec => simp [Spec.Eval.Out.bind, Agree]
+    | error => simp [Spec.Eval.Out.bind, Agree, h2 hv]
+    | val v =>
+      obtain ⟨id, mvs, st1, he, hveq, hsc, hheap, hout⟩ := h1 v hv
+      subst hveq
+      have hr1 : Rel g ctx st1 env := hr.of_heap hheap
+      have hok1 : ScopeOk ctx st1 := fun f hf' => by rw [hheap]; exact hok f hf'
+      simp only [Spec.Eval.Out.bind, he]
+      cases mvs with
+      | nil =>
+        simp only [List.isEmpty_nil, if_true, absL]
+        exact ⟨rfl, by rw [hout]; simp, hr1⟩
+      | cons x rest =>
+        simp only [List.isEmpty_cons, Bool.false_eq_true, if_false, absL]
+        have hl := loop_agree g (execBody g esc call (.mk bp cs)) _ (execBody_good g esc call hcall _) hb var
+          (((x :: rest).length : Int) - 1) ((absV x :: absL rest).length - 1) (x :: rest) 0 ctx st1 env hr1 hok1 hsc
+        rw [absL] at hl
+        cases hlv : Spec.Eval.loopSpec (Spec.Eval.renderBlock reg hasBundle esc entry scall (.mk bp cs)) env var
+            ((absV x :: absL rest).length - 1) (absV x :: absL rest) 0 with
+        | unspec => simp [Agree]
+        | error => rw [hlv] at hl; simpa [Agree, AgreeB] using hl
+        | val out =>
+          rw [hlv] at hl
+          simp only [AgreeB] at hl
+          exact ⟨hl.1, by rw [hl.2.1, hout], hl.2.2⟩
+  | .forc _ var (.func p fname args) (.mk bp cs) (some bE), hf, ctx, st, env, hr, hown, hok => by
+    simp only [cfrag, bfrag, Bool.and_eq_true, beq_iff_eq] at hf
+    obtain ⟨⟨⟨hname, hfa⟩, hfb⟩, hfe⟩ := hf
+    subst hname
+    obtain ⟨h1, h2⟩ := evalIn_range_sim hr p args hfa
+    have hb : ∀ ctx' st' env', Rel g ctx' st' env' → Own ctx' st' → ScopeOk ctx' st' →
+        ∃ o : Spec.Eval.ROut, Agree g ctx' st' (execBody g esc call (.mk bp cs) ctx' st') o ∧
+          Spec.Eval.renderBlock reg hasBundle esc entry scall (.mk bp cs) env' = o.bind fun q => .val q.1 := by
+      intro ctx' st' env' hr' hown' hok'
+      refine ⟨cmdsE esc reg hasBundle entry scall cs env', ?_, ?_⟩
+      · rw [execBody]; exact Agree.of_atNode (cmds_agree cs hfb ctx' _ env' (hr'.of_heap rfl) (hown'.atNode _) hok')
+      · rw [Spec.Eval.renderBlock]; exact renderCmds_eq esc reg hasBundle entry scall cs env'
+    rw [execCmd, Spec.Eval.renderCmd]
+    cases hv : Spec.Eval.eval env (.func p fRange args) with
+    | unspec => simp [Spec.Eval.Out.bind, Agree]
+    | error => simp [Spec.Eval.Out.bind, Agree, h2 hv]
+    | val v =>
+      obtain ⟨id, mvs, st1, he, hveq, hsc, hheap, hout⟩ := h1 v hv
+      subst hveq
+      have hr1 : Rel g ctx st1 env := hr.of_heap hheap
+      have hok1 : ScopeOk ctx st1 := fun f hf' => by rw [hheap]; exact hok f hf'
+      simp only [Spec.Eval.Out.bind, he]
+      cases mvs with
+      | nil =>
+        simp only [List.isEmpty_nil, if_true, absL]
+        have hbe := body_agree bE hfe ctx st1 env hr1 hok1
+        cases hve : Spec.Eval.renderBlock reg hasBundle esc entry scall bE env with
+        | unspec => simp [Spec.Eval.Out.bind, Agree]
+        | error => rw [hve] at hbe; simpa [Spec.Eval.Out.bind, Agree, AgreeB] using hbe
+        | val out =>
+          rw [hve] at hbe
+          simp only [AgreeB] at hbe
+          exact ⟨hbe.1, by rw [hbe.2.1, hout], hbe.2.2⟩
+      | cons x rest =>
+        simp only [List.isEmpty_cons, Bool.false_eq_true, if_false, absL]
+        have hl := loop_agree g (execBody g esc call (.mk bp cs)) _ (execBody_good g esc call hcall _) hb var
+          (((x :: rest).length : Int) - 1) ((absV x :: absL rest).length - 1) (x :: rest) 0 ctx st1 env hr1 hok1 hsc
+        rw [absL] at hl
+        cases hlv : Spec.Eval.loopSpec (Spec.Eval.renderBlock reg hasBundle esc entry scall (.mk bp cs)) env var
+            ((absV x :: absL rest).length - 1) (absV x :: absL rest) 0 with
+        | unspec => simp [Agree]
+        | error => rw [hlv] at hl; simpa [Agree, AgreeB] using hl
+        | val out =>
+          rw [hlv] at hl
+          simp only [AgreeB] at hl
+          exact ⟨hl.1, by rw [hl.2.1, hout], hl.2.2⟩
   | .forc _ _ (.null _) _ _, hf, _, _, _, _, _, _ => by simp [cfrag] at hf
   | .forc _ _ (.bool _ _) _ _, hf, _, _, _, _, _, _ => by simp [cfrag] at hf
   | .forc _ _ (.int _ _) _ _, hf, _, _, _, _, _, _ => by simp [cfrag] at hf
   | .forc _ _ (.float _ _) _ _, hf, _, _, _, _, _, _ => by simp [cfrag] at hf
   | .forc _ _ (.str _ _ _) _ _, hf, _, _, _, _, _, _ => by simp [cfrag] at hf
   | .forc _ _ (.global _ _) _ _, hf, _, _, _, _, _, _ => by simp [cfrag] at hf
-  | .forc _ _ (.func _ _ _) _ _, hf, _, _, _, _, _, _ => by simp [cfrag] at hf
   | .forc _ _ (.map _ _) _ _, hf, _, _, _, _, _, _ => by simp [cfrag] at hf
   | .forc _ _ (.dataRef _ _ _) _ _, hf, _, _, _, _, _, _ => by simp [cfrag] at hf
   | .forc _ _ (.not _ _) _ _, hf, _, _, _, _, _, _ => by simp [cfrag] at hf
@@ -694,7 +944,102 @@ theorem cmd_agree : (c : Cmd) → cfrag c = true → ∀ (ctx : Scope) (st : St)
         rw [hcv] at hc
         simp only [AgreeB] at hc
         exact ⟨hc.1, by rw [hc.2.1, hout], hc.2.2⟩
-  | .call .., hf, _, _, _, _, _, _ => by simp [cfrag] at hf
+  | .call p name true d ps, hf, _, _, _, _, _, _ => by simp [cfrag] at hf
+  | .call p name false (some d) ps, hf, _, _, _, _, _, _ => by simp [cfrag] at hf
+  | .call p name false none ps, hf, ctx, st, env, hr, hown, hok => by
+    simp only [cfrag] at hf
+    -- after the call the caller's bindings are what they were (Props/C02 block_cmd_scoped)
+    have hgood := C02.block_cmd_scoped g esc call hcall (.call p name false none ps) (by intros; simp) (by intros; simp) ctx st hown
+    have hrel : Rel g ctx (execCmd g esc call (.call p name false none ps) ctx st).st env :=
+      hr.of_lookup (C02.lookup_ext hgood.ext ctx hok)
+    rw [execCmd] at hrel ⊢
+    rw [Spec.Eval.renderCmd, hreg]
+    rw [hreg] at hrel
+    cases hl : Registry.lookup reg name with
+    | none => simp [Agree]
+    | some callee =>
+      rw [hl] at hrel
+      simp only [Bool.false_eq_true, if_false, Spec.Eval.Out.bind] at hrel ⊢
+      rw [C02.callee_env_none] at hrel ⊢
+      simp only at hrel ⊢
+      -- the callee's param frame: a fresh empty map
+      have own0 : Own [⟨st.heap.length, false⟩] { st with heap := st.heap ++ [⟨[], false⟩] } :=
+        ⟨⟨st.heap.length, false⟩, [], ⟨[], false⟩, rfl, by simp, rfl⟩
+      have hfr0 : FrameRel ({ st with heap := st.heap ++ [⟨[], false⟩] } : St).heap [⟨st.heap.length, false⟩] [] := by
+        intro k
+        simp [lookup, heapGet, Frame.find, Spec.Eval.find, absV, Scalar]
+      have hne : ∀ f ∈ ctx, f.ref ≠ top [⟨st.heap.length, false⟩] := by
+        intro f hf' e; have := hok f hf'; simp [top] at e; omega
+      have hr0 : Rel g ctx { st with heap := st.heap ++ [⟨[], false⟩] } env :=
+        hr.of_lookup (C02.lookup_ext (st := st) (st' := { st with heap := st.heap ++ [⟨[], false⟩] })
+          ⟨by simp, fun i c hc => ⟨c, by
+            have hi : i < st.heap.length := (List.getElem?_eq_some_iff.mp hc).1
+            simp [List.getElem?_append_left hi, hc], rfl, fun _ => rfl⟩, rfl⟩ ctx hok)
+      have hok0 : ScopeOk ctx { st with heap := st.heap ++ [⟨[], false⟩] } := fun f hf' => by
+        have := hok f hf'; simp; omega
+      have hp := params_agree g esc call reg hasBundle entry scall ps hf [⟨st.heap.length, false⟩] ctx _ env [] hr0 own0 hfr0 hne hok0
+      have hpg := execParams_good g esc call hcall ps [⟨st.heap.length, false⟩] ctx { st with heap := st.heap ++ [⟨[], false⟩] } own0
+      cases hpv : Spec.Eval.renderParams reg hasBundle esc entry scall ps env with
+      | unspec => simp [Agree]
+      | error => rw [hpv] at hp; simp only at hp; simp [Agree, hp]
+      | val R =>
+        rw [hpv] at hp
+        simp only at hp
+        obtain ⟨hpc, hpf, hpo⟩ := hp
+        simp only [hpc, hpg.ctx_eq hpc] at hrel ⊢
+        obtain ⟨cctx, s2, hent, ownc, e3, htopc, hcctx⟩ := enter_cons ⟨st.heap.length, false⟩ []
+          (execParams g esc call ps [⟨st.heap.length, false⟩] ctx { st with heap := st.heap ++ [⟨[], false⟩] }).st
+        rw [hent] at hrel ⊢
+        simp only at hrel ⊢
+        -- the callee starts from exactly the params
+        have hlen := hpg.ext.len
+        have hcell : st.heap.length < (execParams g esc call ps [⟨st.heap.length, false⟩] ctx { st with heap := st.heap ++ [⟨[], false⟩] }).st.heap.length := by
+          simp at hlen; omega
+        have hokc : ScopeOk cctx s2 := by
+          intro f hf'
+          rw [hcctx] at hf'
+          have := (e3 (fun _ => False)).len
+          simp only [List.mem_cons, List.mem_nil_iff, or_false] at hf'
+          rcases hf' with rfl | rfl
+          · simp only; have h2 : s2.heap.length = (execParams g esc call ps [⟨st.heap.length, false⟩] ctx { st with heap := st.heap ++ [⟨[], false⟩] }).st.heap.length + 1 := by
+              simp only [enter, push, Option.some.injEq, Prod.mk.injEq] at hent; rw [← hent.2]; simp
+            omega
+          · simp only; omega
+        have hlk : ∀ k, lookup s2.heap cctx k =
+            lookup (execParams g esc call ps [⟨st.heap.length, false⟩] ctx { st with heap := st.heap ++ [⟨[], false⟩] }).st.heap
+              [⟨st.heap.length, false⟩] k := by
+          intro k
+          have hpe := hent
+          simp only [enter, Option.some.injEq] at hpe
+          have hc1 : cctx = (push [⟨st.heap.length, true⟩]
+              (execParams g esc call ps [⟨st.heap.length, false⟩] ctx { st with heap := st.heap ++ [⟨[], false⟩] }).st).1 := by rw [hpe]
+          have hs2 : s2 = (push [⟨st.heap.length, true⟩]
+              (execParams g esc call ps [⟨st.heap.length, false⟩] ctx { st with heap := st.heap ++ [⟨[], false⟩] }).st).2 := by rw [hpe]
+          rw [hc1, hs2]
+          have := lookup_push [⟨st.heap.length, true⟩]
+            (execParams g esc call ps [⟨st.heap.length, false⟩] ctx { st with heap := st.heap ++ [⟨[], false⟩] }).st
+            (by intro f hf'; simp only [List.mem_cons, List.mem_nil_iff, or_false] at hf'; subst hf'; exact hcell) k
+          rw [this]
+          simp [lookup]
+        have hrc : Rel g cctx s2 { vars := R ++ [], loops := [], ij := env.ij, globals := env.globals } := by
+          refine ⟨fun k _ => ?_, fun k => ?_, hr.globals⟩
+          · show absV (lookup s2.heap cctx k) = _
+            rw [hlk k]; exact (hpf k).1
+          · show Scalar (lookup s2.heap cctx k) = true
+            rw [hlk k]; exact (hpf k).2
+        have hmem : callee ∈ reg := List.mem_of_find?_eq_some hl
+        have hct := hcs callee hmem cctx s2 { entry := R ++ [], ij := env.ij, globals := env.globals } hrc ownc hokc
+        have hout2 : s2.out = st.out := by
+          simp only [enter, push, Option.some.injEq, Prod.mk.injEq] at hent
+          rw [← hent.2]; exact hpo
+        cases hsv : scall callee { entry := R ++ [], ij := env.ij, globals := env.globals } with
+        | unspec => simp [Agree]
+        | error => rw [hsv] at hct; simpa [Agree, AgreeT] using hct
+        | val out =>
+          rw [hsv] at hct
+          simp only [AgreeT] at hct
+          simp only [Agree]
+          exact ⟨hct.1, by show bufBytes (call callee cctx s2).st.out = _; rw [hct.2, hout2], hrel⟩
   | .namespace .., hf, _, _, _, _, _, _ => by simp [cfrag] at hf
   | .template .., hf, _, _, _, _, _, _ => by simp [cfrag] at hf
   | .soyDoc .., hf, _, _, _, _, _, _ => by simp [cfrag] at hf
@@ -817,7 +1162,7 @@ theorem conds_agree : (cs : CondList) → condsFrag cs = true → ∀ (ctx : Sco
 end
 
 
-include hob hcall in
+include hob hcall hreg hcs in
 /-- The walk of a template body refines the lexical semantics: on the fragment, whenever `Spec.renderBlock`
     yields text the model ends ok and has written exactly that text after what was written before;
     whenever it yields an error the model yields an error. -/
@@ -830,12 +1175,201 @@ theorem exec_refines_lexical_partial (b : Block) (hf : bfrag b = true) (ctx : Sc
     | .unspec => True := by
   obtain ⟨p, cs⟩ := b
   simp only [bfrag] at hf
-  have h := Agree.of_atNode (cmds_agree g hob esc call hcall reg hasBundle entry scall cs hf ctx (atNode st p) env (hr.of_heap rfl) (hown.atNode p) hok)
+  have h := Agree.of_atNode (cmds_agree g hob esc call hcall reg hasBundle entry scall hreg hcs cs hf ctx (atNode st p) env (hr.of_heap rfl) (hown.atNode p) hok)
   rw [Spec.Eval.renderBlock, renderCmds_eq, execBody]
   cases hv : cmdsE esc reg hasBundle entry scall cs env with
   | unspec => simp [Spec.Eval.Out.bind]
   | error => rw [hv] at h; simpa [Spec.Eval.Out.bind, Agree] using h
   | val q => rw [hv] at h; simp only [Agree] at h; simpa [Spec.Eval.Out.bind] using ⟨h.1, h.2.1⟩
+
+include hob hcall hreg hcs in
+/-- {foreach $x in E} over a list VALUE: for ANY list expression `E` whose evaluation agrees with the
+    specification's in the current state (`hE` — e.g. a variable bound to a list of scalars,
+    `list_variable_agrees`), the loop refines the lexical semantics: the body runs once per element in a
+    frame of its own, the loop variable is gone afterwards. -/
+theorem foreach_over_value_refines (p0 : Nat) (var : Bytes) (E : Expr) (bp : Nat) (cs : CmdList) (hfb : csFrag cs = true)
+    (ctx : Scope) (st : St) (env : Spec.Eval.Env) (hr : Rel g ctx st env) (hown : Own ctx st) (hok : ScopeOk ctx st)
+    (hE : (∀ v, Spec.Eval.eval env E = .val v → ∃ id mvs st1, evalIn g E ctx st = some (.list id mvs, st1) ∧
+          v = .list (absL mvs) ∧ (∀ x ∈ mvs, Scalar x = true) ∧ st1.heap = st.heap ∧ st1.out = st.out) ∧
+        (Spec.Eval.eval env E = .error → evalIn g E ctx st = none)) :
+    Agree g ctx st (execCmd g esc call (.forc p0 var E (.mk bp cs) none) ctx st)
+      (Spec.Eval.renderCmd reg hasBundle esc entry scall (.forc p0 var E (.mk bp cs) none) env) := by
+    obtain ⟨h1, h2⟩ := hE
+    have hb : ∀ ctx' st' env', Rel g ctx' st' env' → Own ctx' st' → ScopeOk ctx' st' →
+        ∃ o : Spec.Eval.ROut, Agree g ctx' st' (execBody g esc call (.mk bp cs) ctx' st') o ∧
+          Spec.Eval.renderBlock reg hasBundle esc entry scall (.mk bp cs) env' = o.bind fun q => .val q.1 := by
+      intro ctx' st' env' hr' hown' hok'
+      refine ⟨cmdsE esc reg hasBundle entry scall cs env', ?_, ?_⟩
+      · rw [execBody]; exact Agree.of_atNode (cmds_agree g hob esc call hcall reg hasBundle entry scall hreg hcs cs hfb ctx' _ env' (hr'.of_heap rfl) (hown'.atNode _) hok')
+      · rw [Spec.Eval.renderBlock]; exact renderCmds_eq esc reg hasBundle entry scall cs env'
+    rw [execCmd, Spec.Eval.renderCmd]
+    cases hv : Spec.Eval.eval env E with
+    | unspec => simp [Spec.Eval.Out.bind, Agree]
+    | error => simp [Spec.Eval.Out.bind, Agree, h2 hv]
+    | val v =>
+      obtain ⟨id, mvs, st1, he, hveq, hsc, hheap, hout⟩ := h1 v hv
+      subst hveq
+      have hr1 : Rel g ctx st1 env := hr.of_heap hheap
+      have hok1 : ScopeOk ctx st1 := fun f hf' => by rw [hheap]; exact hok f hf'
+      simp only [Spec.Eval.Out.bind, he]
+      cases mvs with
+      | nil =>
+        simp only [List.isEmpty_nil, if_true, absL]
+        exact ⟨rfl, by rw [hout]; simp, hr1⟩
+      | cons x rest =>
+        simp only [List.isEmpty_cons, Bool.false_eq_true, if_false, absL]
+        have hl := loop_agree g (execBody g esc call (.mk bp cs)) _ (execBody_good g esc call hcall _) hb var
+          (((x :: rest).length : Int) - 1) ((absV x :: absL rest).length - 1) (x :: rest) 0 ctx st1 env hr1 hok1 hsc
+        rw [absL] at hl
+        cases hlv : Spec.Eval.loopSpec (Spec.Eval.renderBlock reg hasBundle esc entry scall (.mk bp cs)) env var
+            ((absV x :: absL rest).length - 1) (absV x :: absL rest) 0 with
+        | unspec => simp [Agree]
+        | error => rw [hlv] at hl; simpa [Agree, AgreeB] using hl
+        | val out =>
+          rw [hlv] at hl
+          simp only [AgreeB] at hl
+          exact ⟨hl.1, by rw [hl.2.1, hout], hl.2.2⟩
+
+omit hob hcall hreg hcs in
+/-- a variable bound to a list of scalars (in both environments) is such an `E` -/
+theorem list_variable_agrees (p : Nat) (key : Bytes) (hk : (key == sIj) = false) (ctx : Scope) (st : St) (env : Spec.Eval.Env)
+    (id : Nat) (xs : List Value) (hxs : ∀ x ∈ xs, Scalar x = true)
+    (hm : lookup st.heap ctx key = .list id xs) (hs : env.lookup key = .list (absL xs)) :
+    (∀ v, Spec.Eval.eval env (.dataRef p key .nil) = .val v → ∃ id mvs st1, evalIn g (.dataRef p key .nil) ctx st = some (.list id mvs, st1) ∧
+        v = .list (absL mvs) ∧ (∀ x ∈ mvs, Scalar x = true) ∧ st1.heap = st.heap ∧ st1.out = st.out) ∧
+    (Spec.Eval.eval env (.dataRef p key .nil) = .error → evalIn g (.dataRef p key .nil) ctx st = none) := by
+  have hk2 : (key == Spec.Eval.sIj) = false := hk
+  have hS : Spec.Eval.eval env (.dataRef p key .nil) = .val (.list (absL xs)) := by
+    rw [Spec.Eval.eval]; simp only [hk2, Bool.false_eq_true, if_false, Spec.Eval.evalAcc, hs]
+  have hM : evalIn g (.dataRef p key .nil) ctx st = some (.list id xs, st) := by
+    simp [evalIn, evalE, hk, evalAccesses, eenv, hm]
+  rw [hS]
+  exact ⟨fun v hv => by simp only [Out.val.injEq] at hv; exact ⟨id, xs, st, hM, hv.symm, hxs, rfl, rfl⟩, fun h => by simp at h⟩
+
+end
+
+/-! ### the closed statement: templates calling templates, `execute` against `Spec.render` -/
+
+/-- every template of the registry is in the fragment -/
+def regFrag (reg : Registry.Reg) : Prop := ∀ t ∈ reg, bfrag t.body = true
+
+/-- a template invocation refines the specification's, at every call depth -/
+theorem tmpl_refines (g : GEnv) (hob : g.oblig = []) (hasBundle : Bool) (hfr : regFrag g.reg) :
+    ∀ (fuel : Nat) (t : Registry.Tmpl), t ∈ g.reg → ∀ (cctx : Scope) (s2 : St) (ce : Spec.Eval.CallEnv),
+      Rel g cctx s2 { vars := ce.entry, loops := [], ij := ce.ij, globals := ce.globals } → Own cctx s2 → ScopeOk cctx s2 →
+      AgreeT s2 (runTmpl g fuel t cctx s2) (Spec.Eval.renderTmpl g.reg hasBundle fuel t ce) := by
+  intro fuel
+  induction fuel with
+  | zero => intro t _ cctx s2 ce _ _ _; rw [Spec.Eval.renderTmpl]; trivial
+  | succ n ih =>
+    intro t ht cctx s2 ce hr hown hok
+    rw [runTmpl, Spec.Eval.renderTmpl]
+    have h := exec_refines_lexical_partial g hob (escapeOf t) (runTmpl g n) (runTmpl_good g n) g.reg hasBundle ce.entry
+      (Spec.Eval.renderTmpl g.reg hasBundle n) rfl ih t.body (hfr t ht) cctx (atNode s2 t.pos)
+      { vars := ce.entry, loops := [], ij := ce.ij, globals := ce.globals } (hr.of_heap rfl) (hown.atNode _) hok
+    have hesc : Spec.Eval.escapeOn t = escapeOf t := rfl
+    rw [hesc]
+    cases hv : Spec.Eval.renderBlock g.reg hasBundle (escapeOf t) ce.entry (Spec.Eval.renderTmpl g.reg hasBundle n) t.body
+        { vars := ce.entry, loops := [], ij := ce.ij, globals := ce.globals } with
+    | unspec => trivial
+    | error => rw [hv] at h; exact h
+    | val out => rw [hv] at h; exact h
+
+theorem find_absK : ∀ (kvs : Frame) (k : Bytes), Spec.Eval.find (absK kvs) k = (Frame.find kvs k).map absV
+  | [], _ => rfl
+  | (k', v) :: r, k => by
+    simp only [absK, Spec.Eval.find, Frame.find]
+    split
+    · rfl
+    · exact find_absK r k
+
+/-- `Execute` once the entry template is found: the walk starts on the scope [fresh frame, data (entered)] -/
+theorem execute_some (g : GEnv) (name : Bytes) (data : Frame) (fuel : Nat) (t : Registry.Tmpl)
+    (hl : Registry.lookup g.reg name = some t) :
+    execute g name data fuel =
+      (let r := runTmpl g fuel t [⟨1, false⟩, ⟨0, true⟩]
+        { heap := [⟨data, true⟩, ⟨[], false⟩], out := [], next := freshBase g data, foreign := 0 }
+       { cls := (match r.cls with
+          | .err => if posOk t then Cls.err else Cls.panic
+          | c => c), chunks := r.st.out.reverse, data := heapGet r.st.heap 0, foreign := r.st.foreign, next := r.st.next,
+         file := t.file, pos := r.st.node, line := lineNumber t.text r.st.node, impossible := r.st.impossible }) := by
+  unfold execute
+  rw [hl]
+  rfl
+
+/-- `exec_refines_lexical` on the fragment, closed: for a registry whose templates are all in the fragment
+    (raw text, print without directives, css, debugger, log, if/elseif/else, switch, foreach over a list
+    literal, let value / content, calls WITHOUT a data attribute and with value params), scalar data and
+    globals, no obligatory directive: whenever `Spec.render` yields text, `execute` ends ok having written
+    exactly that text; whenever it yields an error, `execute` fails. -/
+theorem render_refines_lexical_partial (g : GEnv) (hob : g.oblig = []) (hfr : regFrag g.reg)
+    (hgl : ∀ kv ∈ g.globals, Scalar kv.2 = true) (name : Bytes) (data : Frame) (hdata : ∀ kv ∈ data, Scalar kv.2 = true)
+    (fuel : Nat) (ij : Option Spec.Eval.Binds) (hasBundle : Bool) :
+    match Spec.Eval.render g.reg (absK g.globals) ij hasBundle name (absK data) fuel with
+    | .val out => (execute g name data fuel).cls = .ok ∧ (execute g name data fuel).chunks.flatten = out
+    | .error => (execute g name data fuel).cls = .err ∨ (execute g name data fuel).cls = .panic
+    | .unspec => True := by
+  unfold Spec.Eval.render
+  cases hl : Registry.lookup g.reg name with
+  | none => simp [execute, hl]
+  | some t =>
+    have ht : t ∈ g.reg := List.mem_of_find?_eq_some hl
+    rw [execute_some g name data fuel t hl]
+    simp only
+    have hfind : ∀ (kvs : Frame), (∀ kv ∈ kvs, Scalar kv.2 = true) → ∀ k v, Frame.find kvs k = some v → Scalar v = true := by
+      intro kvs
+      induction kvs with
+      | nil => intro _ k v h; simp [Frame.find] at h
+      | cons p r ih =>
+        intro hs k v h
+        obtain ⟨k', v'⟩ := p
+        simp only [Frame.find] at h
+        split at h
+        · simp only [Option.some.injEq] at h; subst h; exact hs (k', v') List.mem_cons_self
+        · exact ih (fun kv hkv => hs kv (List.mem_cons_of_mem _ hkv)) k v h
+    have hrel : Rel g [⟨1, false⟩, ⟨0, true⟩]
+        { heap := [⟨data, true⟩, ⟨[], false⟩], out := [], next := freshBase g data, foreign := 0 }
+        { vars := absK data, loops := [], ij := ij, globals := absK g.globals } := by
+      refine ⟨fun k _ => ?_, fun k => ?_, fun k => ?_⟩
+      · show absV (lookup _ _ k) = Spec.Eval.Env.lookup _ k
+        simp only [lookup, heapGet, Spec.Eval.Env.lookup, find_absK]
+        cases hf : Frame.find data k <;> simp [Frame.find, absV, hf]
+      · show Scalar (lookup _ _ k) = true
+        simp only [lookup, heapGet]
+        cases hf : Frame.find data k with
+        | none => simp [Frame.find, Scalar, hf]
+        | some v => simp [Frame.find, hf, hfind data hdata k v hf]
+      · show match Frame.find g.globals k with
+          | some v => Spec.Eval.find (absK g.globals) k = some (absV v) ∧ Scalar v = true
+          | none => Spec.Eval.find (absK g.globals) k = none
+        rw [find_absK]
+        cases hf : Frame.find g.globals k with
+        | none => simp
+        | some v => simp [hfind g.globals hgl k v hf]
+    have hown : Own [⟨1, false⟩, ⟨0, true⟩]
+        { heap := [⟨data, true⟩, ⟨[], false⟩], out := [], next := freshBase g data, foreign := 0 } :=
+      ⟨⟨1, false⟩, [⟨0, true⟩], ⟨[], false⟩, rfl, rfl, rfl⟩
+    have hok : ScopeOk [⟨1, false⟩, ⟨0, true⟩]
+        { heap := [⟨data, true⟩, ⟨[], false⟩], out := [], next := freshBase g data, foreign := 0 } := by
+      intro f hf; simp at hf; rcases hf with rfl | rfl <;> simp
+    have h := tmpl_refines g hob hasBundle hfr fuel t ht _ _ { entry := absK data, ij := ij, globals := absK g.globals } hrel hown hok
+    cases hv : Spec.Eval.renderTmpl g.reg hasBundle fuel t { entry := absK data, ij := ij, globals := absK g.globals } with
+    | unspec => trivial
+    | error =>
+      rw [hv] at h
+      simp only [AgreeT] at h
+      simp only [h]
+      split <;> simp
+    | val out =>
+      rw [hv] at h
+      simp only [AgreeT] at h
+      simp only [h.1]
+      refine ⟨trivial, ?_⟩
+      have := h.2
+      simpa [bufBytes] using this
+
+section
+variable (g : GEnv)
 
 end
 
@@ -868,7 +1402,7 @@ theorem rel0 : Rel g0 ctx0 st0 env0 := by
 example : bufBytes (execBody g0 true (fun _ ctx st => ⟨.fuelOut, ctx, st⟩) body0 ctx0 st0).st.out = [105, 110, 111, 117, 116] := by
   have hcall : ∀ t, GoodRun ((fun _ ctx st => ⟨.fuelOut, ctx, st⟩ : Registry.Tmpl → Run) t) :=
     fun _ ctx st _ => ⟨by simp, fun h => by simp at h, Ext.refl _ _⟩
-  have h := exec_refines_lexical_partial g0 rfl true _ hcall [] false [] (fun _ _ => .unspec) body0 (by decide) ctx0 st0 env0 rel0
+  have h := exec_refines_lexical_partial g0 rfl true _ hcall [] false [] (fun _ _ => .unspec) rfl (fun _ _ _ _ _ _ _ _ => trivial) body0 (by decide) ctx0 st0 env0 rel0
     ⟨⟨1, false⟩, [⟨0, true⟩], ⟨[], false⟩, rfl, rfl, rfl⟩ (by intro f hf; simp [ctx0] at hf; rcases hf with rfl | rfl <;> simp [st0])
   have hs : Spec.Eval.renderBlock [] false true [] (fun _ _ => .unspec) body0 env0 = .val [105, 110, 111, 117, 116] := by rfl
   rw [hs] at h
@@ -885,9 +1419,50 @@ def body1 : Block :=
 example : bufBytes (execBody g0 true (fun _ ctx st => ⟨.fuelOut, ctx, st⟩) body1 ctx0 st0).st.out = [97, 98, 33, 111, 117, 116] := by
   have hcall : ∀ t, GoodRun ((fun _ ctx st => ⟨.fuelOut, ctx, st⟩ : Registry.Tmpl → Run) t) :=
     fun _ ctx st _ => ⟨by simp, fun h => by simp at h, Ext.refl _ _⟩
-  have h := exec_refines_lexical_partial g0 rfl true _ hcall [] false [] (fun _ _ => .unspec) body1 (by decide) ctx0 st0 env0 rel0
+  have h := exec_refines_lexical_partial g0 rfl true _ hcall [] false [] (fun _ _ => .unspec) rfl (fun _ _ _ _ _ _ _ _ => trivial) body1 (by decide) ctx0 st0 env0 rel0
     ⟨⟨1, false⟩, [⟨0, true⟩], ⟨[], false⟩, rfl, rfl, rfl⟩ (by intro f hf; simp [ctx0] at hf; rcases hf with rfl | rfl <;> simp [st0])
   have hs : Spec.Eval.renderBlock [] false true [] (fun _ _ => .unspec) body1 env0 = .val [97, 98, 33, 111, 117, 116] := by rfl
+  rw [hs] at h
+  simpa [bufBytes, st0] using h.2
+
+/-! ### non-vacuity of the closed theorem: `{let $x: 'L' /}{call .c}{param p: $x /}{/call}{$x}` with
+    .c = `[{$p}{$x}` — wait, `$x` is NOT visible in the callee: .c = `[{$p}]` gives "[L]L" -/
+
+def tCallee : Registry.Tmpl :=
+  { name := [99], params := [], body := .mk 10 (.cons (.rawText 11 [91]) (.cons (.print 12 (.dataRef 13 [112] .nil) []) (.cons (.rawText 14 [93]) .nil))),
+    autoescape := .unspecified, nsName := [110], nsAutoescape := .unspecified, pos := 9, file := [102], text := [] }
+
+def tCaller : Registry.Tmpl :=
+  { name := [116], params := [],
+    body := .mk 1 (.cons (.letValue 2 [120] (.str 2 [] [76]))
+      (.cons (.call 3 [99] false none (.value 4 [112] (.dataRef 4 [120] .nil) .nil))
+      (.cons (.print 5 (.dataRef 5 [120] .nil) []) .nil))),
+    autoescape := .unspecified, nsName := [110], nsAutoescape := .unspecified, pos := 0, file := [102], text := [] }
+
+def gCall : GEnv := { reg := [tCaller, tCallee], globals := [], ij := none, msgs := none, tbl := [], oblig := [] }
+
+example : (execute gCall [116] [] 4).cls = .ok ∧ (execute gCall [116] [] 4).chunks.flatten = [91, 76, 93, 76] := by
+  have hfr : regFrag gCall.reg := by
+    intro t ht
+    simp only [gCall, List.mem_cons, List.mem_nil_iff, or_false] at ht
+    rcases ht with rfl | rfl <;> decide
+  have h := render_refines_lexical_partial gCall rfl hfr (by simp [gCall]) [116] [] (by simp) 4 none false
+  have hs : Spec.Eval.render gCall.reg (absK gCall.globals) none false [116] (absK []) 4 = .val [91, 76, 93, 76] := by rfl
+  rw [hs] at h
+  exact h
+
+/-- `{for $i in range(1, 4)}{$i}{/for}{$x}`: "123out" -/
+def body2 : Block :=
+  .mk 0 (.cons (.forc 1 [105] (.func 1 fRange (.cons (.int 1 1) (.cons (.int 1 4) .nil)))
+      (.mk 2 (.cons (.print 2 (.dataRef 2 [105] .nil) []) .nil)) none)
+    (.cons (.print 4 (.dataRef 4 [120] .nil) []) .nil))
+
+example : bufBytes (execBody g0 true (fun _ ctx st => ⟨.fuelOut, ctx, st⟩) body2 ctx0 st0).st.out = [49, 50, 51, 111, 117, 116] := by
+  have hcall : ∀ t, GoodRun ((fun _ ctx st => ⟨.fuelOut, ctx, st⟩ : Registry.Tmpl → Run) t) :=
+    fun _ ctx st _ => ⟨by simp, fun h => by simp at h, Ext.refl _ _⟩
+  have h := exec_refines_lexical_partial g0 rfl true _ hcall [] false [] (fun _ _ => .unspec) rfl (fun _ _ _ _ _ _ _ _ => trivial) body2 (by decide) ctx0 st0 env0 rel0
+    ⟨⟨1, false⟩, [⟨0, true⟩], ⟨[], false⟩, rfl, rfl, rfl⟩ (by intro f hf; simp [ctx0] at hf; rcases hf with rfl | rfl <;> simp [st0])
+  have hs : Spec.Eval.renderBlock [] false true [] (fun _ _ => .unspec) body2 env0 = .val [49, 50, 51, 111, 117, 116] := by rfl
   rw [hs] at h
   simpa [bufBytes, st0] using h.2
 
